@@ -1071,3 +1071,108 @@ def rf111(run):
                       'compiled by the generator reads' % (ncase, s, gp, fp, 'the register save area' if in_regs else 'the overflow area', g2, f2,
                                                            'in registers' if want else 'wholly on the stack'), line=f.line)
     return n
+
+
+# ---------------------------------------------------------------------------------------------
+# RF126: a call that moves the stack pointer keeps the frame pointer
+# ---------------------------------------------------------------------------------------------
+
+def rf126(run):
+    rule = 'RF126'
+    run.rule(rule, 'x86-64 machinize_call: when outgoing arguments need stack space the call is bracketed by `sub sp, N` / `add sp, N`.  Spill '
+                   'slots are addressed from sp when the frame pointer is omitted, so inside the bracket every spilled argument would be '
+                   'read N bytes too low.  The call of prohibit_omitting_fp is guarded by no condition other than the ones that guard the '
+                   'creation of the sp adjustment (same condition text, or unconditional)')
+    tu = run.tu('gen')
+    f = tu.func('machinize_call')
+    run.functions_analysed.add(('gen', f.name))
+
+    def guards(x):
+        out = []
+        while True:
+            p_ = f.parent_of(x)
+            if p_ is None:
+                break
+            if p_['k'] == 'IfStmt' and p_['c'][0] is not x:
+                neg = len(p_['c']) > 2 and p_['c'][2] is not None and any(y is x for y in F.walk(p_['c'][2])) and not any(y is x for y in F.walk(p_['c'][1]))
+                out.append(('!' if neg else '') + F.src(F.strip(p_['c'][0])).replace(' ', ''))
+            x = p_
+        return out
+    adj = [x for x in f.walk() if x['k'] == 'CallExpr' and x.get('callee') == 'MIR_new_insn' and len(F.call_args(x)) >= 4
+           and 'SP_HARD_REG' in F.src(F.call_args(x)[2]) and F.src(F.strip(F.call_args(x)[1])) in ('MIR_SUB', 'MIR_ADD')]
+    pro = [x for x in f.walk() if x['k'] == 'CallExpr' and x.get('callee') == 'prohibit_omitting_fp']
+    if not adj:
+        raise F.AnalysisBroken('machinize_call: creation of the sp adjustment not found')
+    n = 1
+    if not pro:
+        run.ob(rule, ('machinize_call',), False)
+        run.violation(rule, f, 'frame pointer may be omitted around an sp adjustment', 'machinize_call adjusts sp around the call but never calls '
+                      'prohibit_omitting_fp', line=adj[0]['l'])
+        return n
+    ga = set(guards(adj[0]))
+    for x in adj[1:]:
+        ga &= set(guards(x))
+    best = None
+    for x in pro:
+        extra = [g for g in guards(x) if g not in ga]
+        if best is None or len(extra) < len(best[1]):
+            best = (x, extra)
+    ok = not best[1]
+    run.ob(rule, ('machinize_call',), ok, {'guards of the sp adjustment': sorted(ga), 'guards of prohibit_omitting_fp': guards(best[0])})
+    if not ok:
+        run.violation(rule, f, 'frame pointer may be omitted around an sp adjustment', 'prohibit_omitting_fp is called only under `%s`, a condition that '
+                      'does not guard the `sub sp` / `add sp` bracket (guarded by %s): a call that passes a small by-value block on the stack '
+                      'moves sp while spill slots are addressed from sp, and the argument registers are loaded from the outgoing argument area' %
+                      (' && '.join(best[1]), sorted(ga) or 'nothing'), line=best[0]['l'])
+    return n
+
+
+# ---------------------------------------------------------------------------------------------
+# RF127: the prologue stores nothing below the stack pointer
+# ---------------------------------------------------------------------------------------------
+
+def rf127(run):
+    import itertools
+    from lib import printexec as PE
+    rule = 'RF127'
+    run.rule(rule, 'x86-64 target_make_prolog_epilog: callee-saved registers are saved at `offset(base)` with base = fp or sp.  For every '
+                   'assignment of `offset`, evaluated with the frame pointer omitted (base is sp) and every combination of the other '
+                   'flags, the value is not negative: memory below sp is not the function\'s — the basic-block wrapper of lazy bb '
+                   'generation, signal handlers and (without a red zone) interrupts write there between the prologue and the epilogue')
+    tu = run.tu('gen')
+    f = tu.func('target_make_prolog_epilog')
+    run.functions_analysed.add(('gen', f.name))
+    asg = [x for x in f.walk() if x['k'] == 'BinaryOperator' and x['op'] == '=' and F.src(F.strip(x['c'][0])) == 'offset']
+    if len(asg) < 2:
+        raise F.AnalysisBroken('target_make_prolog_epilog: assignments of the save offset not found')
+    # base register expression
+    bases = [x for x in f.walk() if x['k'] == 'BinaryOperator' and x['op'] == '=' and F.src(F.strip(x['c'][0])) == 'base_reg']
+    n = 0
+    for x in asg:
+        e = x['c'][1]
+        names = sorted({y['n'] for y in F.walk(e) if y['k'] == 'DeclRefExpr' and y.get('dk') in ('local', 'param', 'global', None)
+                        and y['n'] not in ('keep_fp_p',) and not y['n'].isupper()})
+        flags = [v for v in names if v.endswith('_p')]
+        sizes = [v for v in names if v not in flags]
+        bad = None
+        for combo in itertools.product((0, 1), repeat=len(flags)):
+            env = {'keep_fp_p': 0, 'gen_ctx->target_ctx->keep_fp_p': 0}
+            env.update({v: 16 * (k + 1) for k, v in enumerate(sizes)})
+            env.update(dict(zip(flags, combo)))
+            ex = PE.PrintExec(tu, {}, {}, {})
+            try:
+                v = ex.val(e, env)
+            except F.AnalysisBroken:
+                v = None
+            if v is None:
+                raise F.AnalysisBroken('target_make_prolog_epilog: `%s` not evaluable' % F.src(e)[:60])
+            if v < 0:
+                bad = (dict(zip(flags, combo)), v)
+                break
+        n += 1
+        run.ob(rule, (x['l'],), bad is None, {'site': '%s:%d' % (f.relfile(), x['l']), 'offset': F.src(e)[:80], 'flags enumerated': flags})
+        if bad:
+            run.violation(rule, f, 'save area below sp', '`offset = %s` is negative (%d) with the frame pointer omitted and %s: callee-saved registers '
+                          'are stored below sp, where the basic-block wrapper of lazy bb generation (and any signal handler) writes; the '
+                          'epilogue restores garbage into the caller\'s registers' % (F.src(e)[:70], bad[1], bad[0]), line=x['l'])
+    return n
